@@ -60,6 +60,8 @@ class MystWarnings(Enum):
     """Strikethrough warning, since only implemented in HTML."""
     HTML_PARSE = "html"
     """HTML could not be parsed."""
+    MATHJAX = "mathjax"
+    """The MathJax configuration is being overridden (Sphinx only)."""
     INVALID_ATTRIBUTE = "attribute"
     """Invalid attribute value."""
     SUBSTITUTION = "substitution"
